@@ -20,6 +20,16 @@ Two parts of the model deserve a word (see the header of Adapter.tla):
     in records, in WithAttrs lists, under WithGroup.  Expected = the leaves of the tree with every lv
     set to 0 (what log/slog's own handlers print).  Adapter!ValuerCover makes TLC refuse a catalogue
     that lacks one of the 16 positions; the run is Undecided unless all of them were really emitted.
+  * RECORD TIMES.  The time a hand-made record carries is an entry of a catalogue (rec_times: the zero
+    time.Time, the same in other zones, the Unix epoch, the last nanosecond of year 9999, one instant in two
+    zones, a nanosecond and a second after the zero time, ...) given to TLC as [d, s, n, off, kind]; expected
+    is the INSTANT (Adapter!Instant), read back from what the underlying logger printed.  The zero time is
+    an instant like any other - not "now".
+  * NESTED RECORDS (event Nested).  The outer record's first attribute - a LogValuer, a Stringer or an
+    error - logs another record through the same handler, a handler of the same family or another handler
+    on the same logger while the outer one is being handled: both come out, each once per time it was logged,
+    each with its own content.  A call that does not return is written down by the worker's watchdog (30 s
+    without the process using CPU, or 15 minutes) - the trace ends there - and rejected by the monitor.
   * THE LEVEL REGISTRY is process-wide: Register events are part of the behaviours; a behaviour that
     registers runs in a worker process of its own (the worker forks itself), "Proc" lines tell the
     monitor where a process starts.
@@ -36,7 +46,12 @@ SLOG_LEVELS = [-8, -4, -1, 0, 2, 4, 8, 12, 16, 17]
 A, NL = 97, 10
 
 NO_TREAT = 12
-WITNESSES = [("DerivedFresh", "KeepsConfig"), ("BridgeInverted", "BridgeGate"), ("EntryLogUnknownFatal", "NoTerminating"),
+N_TIMES = 40
+TIME_KINDS = ["zero", "zero-zone", "near-zero", "epoch", "pre-epoch", "y9999", "zone", "ordinary"]
+CARRIERS = ["valuer", "valuer-group", "stringer", "error"]
+NEST_RELS = ["same", "ancestor", "descendant", "sibling", "other"]          # "cousin" needs four handlers
+WITNESSES = [("ZeroTimeNow", "OwnTimeKept RecordComplete"), ("HandleSerialised", "NestedReturns"), ("NestedSharesRecord", "NestedOwnContent"),
+             ("DerivedFresh", "KeepsConfig"), ("BridgeInverted", "BridgeGate"), ("EntryLogUnknownFatal", "NoTerminating"),
              ("AttrsBehindRecord", "RecordWins"), ("RegRemapsStd", "StdIndependent"), ("RegErrDevOfTreated", "RegistryLocal"),
              ("ResolveTopOnly", "RecordComplete AddsGiven"), ("ResolveOnce", "RecordComplete AddsGiven")]
 
@@ -142,6 +157,67 @@ def base_shapes():
     return rec, deriv
 
 
+def rec_times(seed):
+    """The catalogue of record times (Adapter.tla, RECORD TIMES): ids 1..N_TIMES.  The edge instants come
+    first; `kind` says how the worker makes the time.Time ("zero": time.Time{}; "zero-zone": time.Time{}.In(zone);
+    "epoch": time.Unix(0, 0).In(zone); otherwise time.Date of the civil fields in the zone)."""
+    import datetime
+
+    def civil(kind, y, mo, dd, hh, mm, ss, n, off):
+        return dict(kind=kind, y=y, mo=mo, dd=dd, hh=hh, mm=mm, ss=ss, n=n, off=off,
+                    d=datetime.date(y, mo, dd).toordinal() - 1, s=hh * 3600 + mm * 60 + ss)
+
+    def inst(kind, d_utc, s_utc, n, off):           # an instant (UTC day, second) as seen in a zone
+        d, sec = divmod(d_utc * 86400 + s_utc + off, 86400)
+        return dict(kind=kind, y=0, mo=0, dd=0, hh=0, mm=0, ss=0, n=n, off=off, d=d, s=sec)
+    ts = [
+        inst("zero", 0, 0, 0, 0),                                            # 1  time.Time{}
+        inst("epoch", 719162, 0, 0, 0),                                      # 2  1970-01-01T00:00:00Z
+        civil("y9999", 9999, 12, 31, 23, 59, 59, 999999999, 0),              # 3  the last instant RFC 3339 can print
+        inst("zero-zone", 0, 0, 0, 7200),                                    # 4  0001-01-01T02:00:00+02:00, IsZero()
+        inst("zero-zone", 0, 0, 0, -18000),                                  # 5  0000-12-31T19:00:00-05:00, IsZero()
+        civil("near-zero", 1, 1, 1, 0, 0, 0, 1, 0),                          # 6  one nanosecond later
+        inst("epoch", 719162, 0, 0, 19800),                                  # 7  1970-01-01T05:30:00+05:30
+        civil("y9999", 9999, 12, 31, 23, 59, 59, 999999999, 19800),          # 8
+        civil("pre-epoch", 1969, 12, 31, 23, 59, 59, 999999999, 0),          # 9  negative Unix time
+        civil("near-zero", 1, 1, 1, 0, 0, 1, 0, 0),                          # 10 one second later
+        civil("zone", 2024, 2, 29, 21, 30, 15, 123456789 + seed, 9 * 3600),  # 11 one instant ...
+        civil("zone", 2024, 2, 29, 4, 30, 15, 123456789 + seed, -8 * 3600),  # 12 ... in two zones
+    ]
+    for i in range(len(ts) + 1, N_TIMES + 1):       # far from "now", in several zones, with nanoseconds
+        ts.append(civil("ordinary", 2001 + i, 1 + (i * 5) % 12, 1 + (i * 3) % 28, (i * 7) % 24, (i * 11) % 60, (i * 13) % 60,
+                        123456789 + i + seed, ((i % 7) - 3) * 1800))
+    return ts
+
+
+def nest_cells(quick):
+    """Nested probes (Adapter.tla, NESTED RECORDS): outer record (v, sh, via, t, mi), carrier (car, kind k and
+    value id cv of what it yields), inner record q.  Both ways to make a record, catalogue times on both
+    sides (the zero time among them), inner gated out / outer gated out for some logger levels, levels other
+    than the four standard ones, shapes with LogValuers on both sides."""
+    def cell(car, k, cv, outer, inner):
+        (v, sh, via, t, mi), (v2, sh2, via2, t2, mi2) = outer, inner
+        return dict(v=v, sh=sh, via=via, t=t, mi=mi, car=car, k=k, cv=cv, q=dict(v=v2, sh=sh2, via=via2, t=t2, mi=mi2))
+    cells = [
+        cell("valuer", "str", 150, (0, 2, "logger", 0, 1), (-4, 6, "logger", 0, 2)),
+        cell("valuer-group", "int", 151, (4, 3, "rec", 1, 3), (0, 6, "rec", 2, 1)),
+        cell("stringer", "any", 152, (4, 1, "logger", 0, 2), (8, 2, "logger", 0, 3)),
+        cell("error", "err", 153, (8, 6, "rec", 3, 1), (4, 1, "rec", 1, 2)),
+        cell("valuer", "time", 154, (8, 2, "rec", 12, 3), (-4, 3, "logger", 0, 1)),
+        cell("stringer", "any", 155, (-4, 5, "rec", 5, 1), (8, 6, "rec", 9, 3)),
+        cell("error", "err", 156, (12, 3, "logger", 0, 2), (2, 2, "rec", 7, 1)),
+        cell("valuer-group", "float", 157, (0, 10, "logger", 0, 3), (4, 11, "logger", 0, 2)),
+    ]
+    if not quick:
+        cells += [
+            cell("valuer", "dur", 158, (0, 7, "rec", 4, 2), (0, 7, "rec", 8, 3)),
+            cell("valuer-group", "uint", 159, (-4, 8, "logger", 0, 1), (-4, 9, "logger", 0, 3)),
+            cell("stringer", "any", 160, (8, 12, "rec", 6, 3), (0, 13, "rec", 10, 2)),
+            cell("error", "err", 161, (0, 4, "logger", 0, 1), (8, 5, "rec", 11, 2)),
+        ]
+    return cells
+
+
 def reg_cells(quick):
     """RegisterLevel calls offered: value, title, treated-as (NO_TREAT = option not given), error device,
     short tags.  Titles differ in their first three characters (the colored format prints 3)."""
@@ -179,7 +255,7 @@ def bmsgs_upto(n):
 def catalogue(ctx):
     rec, deriv = base_shapes()
     quick = ctx.quick()
-    cat = dict(seed=ctx.seed, pkg_level=[WARN, INFO, ERROR][ctx.seed % 3], rec_shapes=rec, deriv_shapes=deriv,
+    cat = dict(seed=ctx.seed, pkg_level=[WARN, INFO, ERROR][ctx.seed % 3], rec_shapes=rec, deriv_shapes=deriv, rec_times=rec_times(ctx.seed),
                hmsgs=[[A, 98], [A, NL, 98, 99], [A, 32, 98, NL]],
                bmsgs=[[], [NL], [A], [A, NL], [A, NL, NL], [A, NL, 98], [NL, A]] if quick else bmsgs_upto(3) + [[A, 98, NL, NL, NL]],
                regcells=reg_cells(quick))
@@ -239,6 +315,14 @@ def mc_configs(ctx, cat):
                           NeedValuerClasses=VALUER_CLASSES)
         cfgs["reg"] = reg_config(cat, [dict(L=TRACE, oi=1), dict(L=WARN, oi=3), dict(L=INFO, oi=2)],
                                  [TRACE, WARN, ERROR, ALWAYS], 2)
+        cfgs["mc"]["NeedTimeKinds"] = ["zero", "zero-zone", "epoch", "pre-epoch", "y9999", "zone", "ordinary"]
+        # nested records: every format x handler trees of <= 3 (chains and siblings) x every (outer handler, inner
+        # handler or 0 = another handler on the logger) x carriers; the time edges once more, on every handler
+        cfgs["nest"] = dict(Roots=[dict(L=TRACE, oi=1), dict(L=WARN, oi=2), dict(L=DEBUG, oi=3), dict(L=INFO, oi=6)],
+                            MaxHandlers=3, DeriveFromAny=True, ProbeAll=True, DerivOffered={1}, GroupNames={"G"}, BridgeCfgs=[],
+                            HandleCells=[dict(v=v, sh=sh, via="rec", t=t, mi=1 + t % 3) for (v, sh, t) in
+                                         ((0, 2, 1), (8, 6, 4), (4, 3, 6), (0, 1, 10), (8, 2, 3))],
+                            NeedTimeKinds=["zero", "zero-zone", "near-zero", "y9999"], NestCells=nest_cells(True))
     else:
         roots = [dict(L=L, oi=oi) for L in range(9) for oi in range(1, n_opts + 1)]
         bridges = [dict(L=L, sev=s, f=f) for L in range(9) for s in range(12) for f in ("json", "logfmt", "color")]
@@ -256,6 +340,12 @@ def mc_configs(ctx, cat):
         cfgs["reg"] = reg_config(cat, [dict(L=TRACE, oi=2), dict(L=WARN, oi=4), dict(L=INFO, oi=7), dict(L=DEBUG, oi=12),
                                        dict(L=ERROR, oi=21), dict(L=ALWAYS, oi=30)],
                                  [TRACE, DEBUG, INFO, WARN, ERROR, OFF, ALWAYS], 2)
+        cfgs["wide"]["NeedTimeKinds"] = ["zero", "epoch", "y9999", "zero-zone", "near-zero", "pre-epoch"]
+        # opts 1..8 = every (nocolor, nosource, json) combination with the level left alone; 21, 30, 35 set a level (Warn, Info, Debug)
+        cfgs["nest"] = dict(Roots=[dict(L=L, oi=oi) for (L, oi) in ((TRACE, 1), (DEBUG, 2), (INFO, 5), (WARN, 7), (ERROR, 21), (TRACE, 30), (ALWAYS, 35))],
+                            MaxHandlers=4, DeriveFromAny=True, ProbeAll=True, DerivOffered={1}, GroupNames={"G"}, BridgeCfgs=[],
+                            HandleCells=[dict(v=v, sh=1 + t % 9, via="rec", t=t, mi=1 + t % 3) for t in range(1, 13) for v in (0, 8)],
+                            NeedTimeKinds=[k for k in TIME_KINDS if k != "ordinary"], NestCells=nest_cells(False))
     return cfgs
 
 
@@ -287,6 +377,8 @@ def tlc_consts(cat, c, trace=False):
         GroupNames=set(c.get("GroupNames", {"G"})), HandleCells=c.get("HandleCells", []), HMsgs=cat["hmsgs"],
         BridgeCfgs=c.get("BridgeCfgs", []), BMsgs=cat["bmsgs"], Deviations=set(c.get("Deviations", [])),
         RegCells=[dict(val=r["val"], treat=r["treat"], err=r["err"]) for r in c.get("RegCells", [])],
+        RecTimes=[dict(d=t["d"], s=t["s"], n=t["n"], off=t["off"], kind=t["kind"]) for t in cat["rec_times"]],
+        NeedTimeKinds=set(c.get("NeedTimeKinds", [])), NestCells=c.get("NestCells", []),
     )
     plain = dict(MaxHandlers=c.get("MaxHandlers", 64), MaxRegs=c.get("MaxRegs", 64 if trace else 0),
                  DeriveFromAny="TRUE" if c.get("DeriveFromAny", True) else "FALSE",
@@ -295,7 +387,8 @@ def tlc_consts(cat, c, trace=False):
 
 
 INVARIANTS = ["TypeOK", "KeepsConfig", "AddsGiven", "RecordComplete", "RecordWins", "StdNamesake", "RegistryLocal",
-              "StdIndependent", "EnabledAgrees", "NoTerminating", "BridgeGate", "BridgeMsgInv"]
+              "StdIndependent", "EnabledAgrees", "NoTerminating", "BridgeGate", "BridgeMsgInv",
+              "OwnTimeKept", "NestedReturns", "NestedOwnContent", "SecondAdapterSame"]
 PROPERTIES = ["RegistrationLocal"]
 
 
@@ -339,6 +432,8 @@ def label_to_event(label, c):
         return dict(op="Enabled", h=a[0], v=a[1])
     if name == "Handle":
         return dict(op="Handle", h=a[0], **c["HandleCells"][a[1] - 1])
+    if name == "Nested":
+        return dict(op="Nested", h=a[0], h2=a[1], **c["NestCells"][a[2] - 1])
     if name == "EntryLog":
         return dict(op="EntryLog", v=a[0], mi=1)
     if name == "NewBridge":
@@ -402,7 +497,7 @@ def run_mc(ctx, cat, name, c):
     for e in evs:
         per_action[e["op"]] = per_action.get(e["op"], 0) + 1
     need = {"NewHandler", "WithAttrs", "WithGroup", "Enabled", "Handle", "EntryLog"} | ({"NewBridge", "Bridge"} if c.get("BridgeCfgs") else set()) \
-        | ({"Register"} if c.get("RegCells") else set())
+        | ({"Register"} if c.get("RegCells") else set()) | ({"Nested"} if c.get("NestCells") else set())
     if need - set(per_action):
         raise Undecided("vacuous exploration: no edge for %s" % sorted(need - set(per_action)))
     behs = tree_cover(edges, inits, evs)
@@ -410,22 +505,22 @@ def run_mc(ctx, cat, name, c):
     return behs
 
 
-def run_witnesses(ctx, cat):
+def run_witnesses(ctx, cat, witnesses):
     """Each deviation enabled must break its invariant: the invariants are not vacuous and the
     deviation really contradicts the property."""
     c = dict(Roots=[dict(L=TRACE, oi=1), dict(L=ERROR, oi=2)], MaxHandlers=2, DeriveFromAny=False, ProbeAll=False,
              HandleCells=handle_cells(len(cat["rec_shapes"]), False)[:3], GroupNames={"G"},
              BridgeCfgs=[dict(L=TRACE, sev=INFO, f="json"), dict(L=ERROR, sev=INFO, f="json")],
-             RegCells=cat["regcells"][:3], MaxRegs=1)
+             RegCells=cat["regcells"][:3], MaxRegs=1, NestCells=nest_cells(True)[:4], NeedTimeKinds=["zero"])
     res = {}
-    for dev, inv in WITNESSES:
+    for dev, inv in witnesses:
         k, plain = tlc_consts(cat, dict(c, Deviations=[dev]))
         mc, cfg = gen_mc("MCW", "Adapter", k, ["INIT Init", "NEXT Next", "CHECK_DEADLOCK FALSE", "INVARIANTS " + " ".join(INVARIANTS)], plain=plain)
         r = ctx.tlc("MCW", "MCW.cfg", files={"MCW.tla": mc, "MCW.cfg": cfg}, name="witness-" + dev, allow_fail=True, workers=2, timeout=300)
         if not set(inv.split()) & set(r.invariant_violated):
             raise Undecided("witness run: deviation %s did not violate %s (violated: %s)\n%s" % (dev, inv, r.invariant_violated, r.out[-2000:]))
         res[dev] = inv
-    ctx.extra["witness_invariant_failures"] = res
+    ctx.extra.setdefault("witness_invariant_failures", {}).update(res)
 
 
 # ------------------------------------------------------------------ seeded random behaviours
@@ -541,7 +636,19 @@ def random_part(ctx, cat, count, depth):
     def handle(ch, h, levels):
         via = rng.choice(["logger", "rec"])
         return dict(op="Handle", h=h, v=rng.choice(levels), sh=ch.shape_for(h), via=via,
-                    t=0 if via == "logger" else rng.randint(1, 40), mi=rng.randint(1, len(cat["hmsgs"])))
+                    t=0 if via == "logger" else rng.randint(1, N_TIMES), mi=rng.randint(1, len(cat["hmsgs"])))
+
+    def nested(ch, h, h2, levels):
+        """a nested pair: outer through h, inner through h2 (0 = another handler on the same logger)"""
+        car = rng.choice(CARRIERS)
+        k = "any" if car == "stringer" else "err" if car == "error" else rng.choice([x for x in KINDS if x not in ("any", "err", "bool")])
+        via, via2 = rng.choice(["logger", "rec"]), rng.choice(["logger", "rec"])
+        mi = rng.randint(1, len(cat["hmsgs"]))
+        mi2 = rng.choice([m for m in range(1, len(cat["hmsgs"]) + 1) if m != mi])
+        return dict(op="Nested", h=h, h2=h2, v=rng.choice(levels), sh=ch.shape_for(h), via=via, t=0 if via == "logger" else rng.randint(1, N_TIMES),
+                    mi=mi, car=car, k=k, cv=next_id(),
+                    q=dict(v=rng.choice(levels), sh=ch.shape_for(h2) if h2 else rng.randint(1, len(cat["rec_shapes"])), via=via2,
+                           t=0 if via2 == "logger" else rng.randint(1, N_TIMES), mi=mi2))
 
     def with_registrations(beh, p):
         """Interleaves 1..3 RegisterLevel calls (distinct cells) at random places, also in front of the set-up."""
@@ -566,6 +673,11 @@ def random_part(ctx, cat, count, depth):
         for h in range(1, parent + sibs + 1):
             beh.append(handle(ch, h, [-4, 0, 4, 8]))
             beh.append(dict(op="Enabled", h=h, v=rng.choice([-4, 0, 4, 8])))
+        # nested pairs between the siblings, and between a sibling and any other handler of the tree (cousins included)
+        for x in range(3):
+            h = parent + 1 + rng.randrange(sibs)
+            h2 = parent + 1 + rng.randrange(sibs) if x < 2 else rng.randint(0, parent + sibs)
+            beh.append(nested(ch, h, h2, [-4, 0, 4, 8]))
         behs.append(with_registrations(beh, 0.25))
     for b in range(count):
         ch = Chain()
@@ -580,6 +692,8 @@ def random_part(ctx, cat, count, depth):
                 beh.append(dict(op="Enabled", h=rng.randint(1, n), v=rng.choice(exotic)))
             elif x < 0.45:
                 beh.append(dict(op="EntryLog", v=rng.choice(exotic), mi=rng.randint(1, len(cat["hmsgs"]))))
+            elif x < 0.55:
+                beh.append(nested(ch, rng.randint(1, n), rng.randint(0, n), exotic if rng.random() < 0.3 else [-4, 0, 4, 8]))
             else:
                 beh.append(handle(ch, rng.randint(1, n), exotic if rng.random() < 0.5 else [-4, 0, 4, 8]))
         behs.append(with_registrations(beh, 0.3))
@@ -611,7 +725,7 @@ def execute(ctx, cat, behaviours, tag):
     rows = read_ndjson(tp)
     k, plain = tlc_consts(cat, dict(MaxHandlers=64), trace=True)
     k["TraceFile"] = "trace.ndjson"
-    mct, cfg = gen_mc("MCT", "AdapterTrace", k, ["SPECIFICATION TSpec", "INVARIANTS Done TTypeOK TKeepsConfig TAddsGiven TStdIndependent TRegistryLocal",
+    mct, cfg = gen_mc("MCT", "AdapterTrace", k, ["SPECIFICATION TSpec", "INVARIANTS Done TTypeOK TKeepsConfig TAddsGiven TStdIndependent TRegistryLocal TSecondAdapterSame",
                                                  "CHECK_DEADLOCK FALSE"], plain=plain)
     r = ctx.tlc("MCT", "MCT.cfg", files={"MCT.tla": mct, "MCT.cfg": cfg}, copy={tp: "trace.ndjson"}, workers=1,
                 name="adapter-trace-" + tag, timeout=3000, heap="4g", allow_fail=True)
@@ -663,20 +777,50 @@ def equal_key_classes(cat, chain, sh, memo):
 
 
 def describe(cat, ev):
-    d = {k: v for k, v in ev.items() if k not in ("recs",)}
+    d = {k: (dict(v) if k == "q" and isinstance(v, dict) else v) for k, v in ev.items() if k not in ("recs",)}
+    for q in [d] + ([d["q"]] if isinstance(d.get("q"), dict) else []):
+        if q.get("t"):
+            tm = cat["rec_times"][q["t"] - 1]
+            q["time"] = "%s: day %d of the era + %d s + %d ns at UTC%+d s" % (tm["kind"], tm["d"], tm["s"], tm["n"], tm["off"])
     recs = ev.get("recs")
     if recs is not None:
-        d["records"] = [dict(w=r["w"], fmt=r["fmt"], sev=r["sev"], msg=bytes(r["msg"]).decode("latin1"), t=r["t"],
+        d["records"] = [dict(w=r["w"], fmt=r["fmt"], sev=r["sev"], msg=bytes(r["msg"]).decode("latin1"),
+                             t=("now " if r["t"]["now"] else "") + r["t"]["text"],
                              leaves=["%s%s=%s/%s" % ("".join(p + "." for p in l["p"]), l["k"], l["kind"], l["v"]) for l in r["leaves"]])
                         for r in recs]
     return json.dumps(d)[:1400]
 
 
+def relation(parents, h, h2):
+    """mirrors Adapter!Rel"""
+    def anc(a, b):
+        while b:
+            b = parents[b]
+            if b == a:
+                return True
+        return False
+    if h2 == 0:
+        return "other"
+    if h2 == h:
+        return "same"
+    if anc(h2, h):
+        return "ancestor"
+    if anc(h, h2):
+        return "descendant"
+    return "sibling" if parents[h] == parents[h2] else "cousin"
+
+
 def account(ctx, cat, script, rows, bad, sources):
     starts = [i for i, r in enumerate(rows) if r["op"] == "Reset"]
     behaviours = script["behaviours"]
-    if len(starts) != len(behaviours):
+    # a call that did not return ends its process: the main one (the recording stops there) or the child a
+    # behaviour with registrations runs in (that behaviour stops there)
+    hung = [i for i, r in enumerate(rows) if r.get("hang")]
+    cut = bool(hung) and hung[-1] == len(rows) - 1
+    if len(starts) != len(behaviours) and not (cut and 0 < len(starts) < len(behaviours)):
         raise Undecided("worker recorded %d behaviours, script has %d" % (len(starts), len(behaviours)))
+    if hung:
+        ctx.extra["calls_that_did_not_return"] = ctx.extra.get("calls_that_did_not_return", 0) + len(hung)
     ctx.traces += len(starts)
     ctx.evaluations += sum(1 for r in rows if r["op"] not in ("Reset", "Proc"))
     ctx.extra["processes"] = ctx.extra.get("processes", 0) + sum(1 for bh in behaviours if any(e["op"] == "Register" for e in bh)) + 1
@@ -685,20 +829,26 @@ def account(ctx, cat, script, rows, bad, sources):
     ek = ctx.extra.setdefault("equal_key_records", dict(hr=0, hh=0, rr=0, cells=set()))
     vp = ctx.extra.setdefault("logvaluer_positions_emitted", {w + c: 0 for w in ("rec:", "rec-under-group:", "given:", "given-under-group:")
                                                               for c in VALUER_CLASSES})
+    tk = ctx.extra.setdefault("record_time_kinds_emitted", {k: 0 for k in TIME_KINDS})
+    np = ctx.extra.setdefault("nested_pairs_emitted", {"%s:%s" % (rel, car): 0 for rel in NEST_RELS + ["cousin"] for car in CARRIERS})
     for bi, s in enumerate(starts):
         hist = []
         chains = [None, ()]
+        parents = [None, 0]
         end = starts[bi + 1] if bi + 1 < len(starts) else len(rows)
         body = [r for r in rows[s + 1:end] if r["op"] != "Proc"]
-        if len(body) != len(behaviours[bi]) or any(r["op"] != e["op"] for r, e in zip(body, behaviours[bi])):
+        stopped = bool(body) and bool(body[-1].get("hang"))
+        if (len(body) != len(behaviours[bi]) and not (stopped and len(body) < len(behaviours[bi]))) or any(r["op"] != e["op"] for r, e in zip(body, behaviours[bi])):
             raise Undecided("recording of behaviour %d does not match its script (%d lines for %d calls)" % (bi, len(body), len(behaviours[bi])))
         for r in body:
             if r["op"] in ("NewHandler", "NewBridge", "WithAttrs", "WithGroup", "Register"):
                 hist.append(json.dumps({k: v for k, v in r.items() if k in ("op", "L", "oi", "sev", "f", "h", "a", "g", "val")}, sort_keys=True))
                 if r["op"] == "WithAttrs":
                     chains.append(chains[r["h"]] + (("a", r["a"]),))
+                    parents.append(r["h"])
                 elif r["op"] == "WithGroup":
                     chains.append(chains[r["h"]] + (("g", r["g"]),))
+                    parents.append(r["h"])
             if r["op"] == "Handle" and r.get("recs"):
                 for cls in equal_key_classes(cat, chains[r["h"]], r["sh"], memo):
                     ek[cls] += 1
@@ -713,8 +863,14 @@ def account(ctx, cat, script, rows, bad, sources):
                             vp[("given-under-group:" if grouped else "given:") + cls] += 1
                 for cls in cat["rec_shapes"][r["sh"] - 1]["vclasses"]:
                     vp[("rec-under-group:" if grouped else "rec:") + cls] += 1
-            if r["op"] == "Enabled" or (r["op"] in ("Handle", "EntryLog", "Bridge") and r.get("recs")):
-                seen.add((tuple(hist), json.dumps({k: v for k, v in r.items() if k in ("op", "h", "v", "sh", "via", "mi", "direct")}, sort_keys=True)))
+            if r["op"] in ("Handle", "Nested") and r.get("recs") and r["t"]:
+                tk[cat["rec_times"][r["t"] - 1]["kind"]] += 1
+            if r["op"] == "Nested" and not r.get("hang") and len(r["recs"]) >= 2:
+                np["%s:%s" % (relation(parents, r["h"], r["h2"]), r["car"])] += 1
+                if r["q"]["t"]:
+                    tk[cat["rec_times"][r["q"]["t"] - 1]["kind"]] += 1
+            if r["op"] == "Enabled" or (r["op"] in ("Handle", "Nested", "EntryLog", "Bridge") and r.get("recs")):
+                seen.add((tuple(hist), json.dumps({k: v for k, v in r.items() if k in ("op", "h", "h2", "v", "sh", "via", "t", "mi", "direct", "car", "q")}, sort_keys=True)))
     ctx.extra.setdefault("nontrivial_keys", set()).update(seen)
     import bisect
     per_key = {}
@@ -724,12 +880,14 @@ def account(ctx, cat, script, rows, bad, sources):
         per_key[b["key"]] = per_key.get(b["key"], 0) + 1
         if per_key[b["key"]] > 5 and not any(k["key"] == b["key"] for k in ctx.known):
             continue          # enough reproducers of this class; all are counted below
-        upto = line - starts[bi]
+        upto = len([r for r in rows[starts[bi] + 1:line + 1] if r["op"] != "Proc"])
         ev = rows[line]
         # a replay needs the registrations, set-up and derivations before the failing call, not the other probes
         prefix = [e for e in behaviours[bi][:upto - 1] if e["op"] in ("NewHandler", "NewBridge", "WithAttrs", "WithGroup", "Register")]
         what = "after %s, %s: model verdict %s; call and observation: %s" % (
             json.dumps([{k: v for k, v in e.items() if k != "tags"} for e in prefix])[:700] if prefix else "nothing", ev["op"], b["key"], describe(cat, ev))
+        if ev.get("hang"):
+            what = "THE CALL DID NOT RETURN (%d s, the process used %d ms of CPU time in the last 30 s); " % (ev.get("wall_s", 0), ev.get("cpu_ms_last_30s", 0)) + what
         ctx.finding(b["key"], what, dict(kind="adapter", script={**script, "behaviours": [prefix + [behaviours[bi][upto - 1]]]},
                                          key=b["key"], observed=ev, source=sources[bi]))
     tot = ctx.extra.setdefault("rejected_lines_per_key", {})
@@ -757,12 +915,13 @@ def run(ctx, replay):
     cat = catalogue(ctx)
     behaviours = []
     from concurrent.futures import ThreadPoolExecutor
-    with ThreadPoolExecutor(max_workers=4) as ex:      # independent TLC runs, each in its own scratch directory
+    with ThreadPoolExecutor(max_workers=7) as ex:      # independent TLC runs, each in its own scratch directory
         futs = [ex.submit(run_mc, ctx, cat, name, c) for name, c in mc_configs(ctx, cat).items()]
-        wit = ex.submit(run_witnesses, ctx, cat)
+        wits = [ex.submit(run_witnesses, ctx, cat, WITNESSES[i::2]) for i in range(2)]
         for f in futs:
             behaviours += f.result()
-        wit.result()
+        for w in wits:
+            w.result()
     n_cover = len(behaviours)
     # seeded random behaviours over the catalogue extended with random shapes (a superset, so the
     # edge cover and the random part are executed and validated together)
@@ -807,6 +966,12 @@ def run(ctx, replay):
     lacking = sorted(k for k, n in ctx.extra["logvaluer_positions_emitted"].items() if not n)
     if lacking:
         raise Undecided("vacuous: no record was emitted with a LogValuer at %s" % lacking)
+    lacking = sorted(k for k, n in ctx.extra["record_time_kinds_emitted"].items() if not n)
+    if lacking:
+        raise Undecided("vacuous: no record carrying its own time of kind %s was emitted" % lacking)
+    lacking = sorted(k for k, n in ctx.extra["nested_pairs_emitted"].items() if not n and not k.startswith("cousin:"))
+    if lacking and not ctx.extra.get("calls_that_did_not_return"):
+        raise Undecided("vacuous: no nested pair of records (relation of the inner handler:carrier) %s was emitted" % lacking)
     ctx.extra["cover_behaviours"] = n_cover
     ctx.extra["random_behaviours"] = len(rb)
     ctx.extra["trace_events"] = n_rows
@@ -814,6 +979,9 @@ def run(ctx, replay):
         "records are decoded by the harness's own scanners (lenient JSON object scanner, logfmt tokenizer, SGR stripper) plus encoding/json, strconv and time.Parse; the library's encoders' own defects (C04/C05: bare group markers in JSON, keys lost after a group in logfmt) are tolerated: a leaf is accepted with its full nested/dotted path, with bare group markers naming its groups, or - when the encoder printed no key at all - by its unique value",
         "value fidelity is checked on concrete representatives per kind drawn per seed (int64 beyond 2^32, uint64 beyond 2^63, fractional float, duration, time with zone and nanoseconds, struct, error - each also as what a LogValuer resolves to); rendering as number or exact string both accepted",
         "LogValuers: every node of an attribute tree (leaf or group; at top level, inside literal groups, inside the group another LogValuer resolved to, deeper) may be handed over as a LogValuer that has to be asked 1-3 times; expected are the leaves of the tree with every LogValuer resolved at every depth (what log/slog's own handlers print). OUT OF SCOPE: a LogValuer whose LogValue() panics or that resolves to LogValuers without end (log/slog substitutes an error value after 100 rounds) - it has no resolved form to compare with; LogValuers hidden inside values of kind Any (struct fields, slices, []slog.Attr) are Go data, not attributes",
+        "record times: 'the record's own time' is read as the INSTANT of the time.Time a record handed to Handler.Handle carries, whatever it is - the zero time.Time (in any zone), the Unix epoch, negative Unix times, the last nanosecond of year 9999 included; the zone the caller expressed it in is presentation (the loggers of this check print UTC, RFC 3339 with nanoseconds); the zero time is emitted as 0001-01-01T00:00:00Z, not left out and not replaced by the time of the call (log/slog's own handlers omit the time of such a record; the underlying logger has no record without a time). Instants RFC 3339 cannot express (before year 1, after year 9999 in UTC) are out of scope",
+        "nested records: the carrier is the FIRST attribute of the outer record and logs the inner record each time it is asked for its content (LogValue / String / Error), on the same goroutine, with the same context; the inner record's own attributes contain no carrier (no unbounded recursion). How many times a carrier is asked is observed, not prescribed: the inner record must appear exactly that many times (when admitted), the outer exactly once. The order of the two records is not prescribed. A destination that logs from inside Write is C11/C12's matter",
+        "a call counts as not returning when it has been running for 30 s and the worker process used less than 0.5 s of CPU time during the last 30 s (it is blocked), or after 15 minutes whatever it does; the worker then writes the line and exits (the goroutine cannot be recovered), later behaviours of that process are not executed",
         "the worker runs in testing mode with LnoInterrupt so that a terminating mapping shows as a record at Fatal/Panic severity instead of killing the process",
         "in colored mode only the first line of a message is compared",
         "extra attributes in a record are not an error (the statement demands that all given ones are present)",
@@ -822,8 +990,8 @@ def run(ctx, replay):
         "a log/slog level other than the four standard ones may be mapped to any non-terminating built-in or registered severity (the statement only fixes the namesakes and excludes terminating severities)",
     ]
     return ctx.finish(rule="every edge of the exhaustive Adapter graph(s) (registrations x set-up x derivation history x probe: Enabled/Handle/"
-                           "Entry.Log/bridge writes; shapes with equal keys and shapes with LogValuers at each of the 16 positions included) executed on the library - one process per behaviour "
+                           "Entry.Log/bridge writes/nested pairs (outer handler x inner handler or another handler on the logger x carrier); shapes with equal keys and shapes with LogValuers at each of the 16 positions, record times of every kind (zero time.Time, epoch, year 9999, zones) included) executed on the library - one process per behaviour "
                            "that registers levels - and validated by TLC against AdapterTrace, plus seeded random behaviours (colliding "
-                           "shapes, shapes whose nodes are LogValuers with probability 0.2 / 0.7, registrations at random places); non-trivial = distinct (registrations, set-up and derivation history, "
+                           "shapes, shapes whose nodes are LogValuers with probability 0.2 / 0.7, registrations at random places, nested pairs between random handlers of the tree); non-trivial = distinct (registrations, set-up and derivation history, "
                            "probe) pairs where a record was emitted or Enabled was asked",
                       exhaustive=True)
